@@ -11,6 +11,11 @@ CLAIMED = {
   "CueLattice.tla defines Sat(atom, constraint) from the language spec; TLC enumerates every multiset of <=3 (quick) / <=4 (thorough) constraints over an 87-constraint alphabet dense around the bound constants, checks the model's own theorems (incremental = declarative denotation, order independence, monotonicity) and dumps every state; each state is rendered as CUE, evaluated alone and unified with each of 70 atoms in two textual orders and compared with the spec's denotation. Exhaustive for the bounded alphabet; nothing is claimed for numbers beyond TLC's integer range.",
   "trusted: TLC, the Sat transcription of the spec text, the harness renderer/projection (guarded by a per-run canary that corrupts the expected denotation and must be rejected)",
   "DESIGN.md §3 C03"),
+ "C16": ("model_checking",
+  "TLA+ protocol spec (ModCache.tla) model-checked exhaustively with crashes and faults; real executions (every crash point, fault and concurrent runs) trace-validated by TLC against ModCacheTrace.tla",
+  "ModCache.tla models the on-disk cache one action per file-system effect with process crashes, registry faults, per-version lock and per-process single-flight; TLC checks NeverServePartial, Stable, ArtefactsAtomic, WritersHoldLock, CleanOnlyStale, OneDownloadPerProcess, MarkerDiscipline exhaustively (2 processes, <=2 crashes; thorough 2x2 threads + liveness under fairness). The code is bound by trace validation: verifhook events of real child processes killed with SIGKILL at every hook point (single, double crashes; faults), each incarnation prefix with the observed disk projection, and free-running 2 processes x 2 goroutines x 2 versions, are checked by TLC against the same actions (per-actor cursors, all invariants at every step, observed stat results / return values / disk projections compared with the model).",
+  "trusted: TLC; hook placement (events after the effect); the disk projection; crash = SIGKILL (no power-loss model); canaries (dropped marker event, flipped disk marker, incomplete observation) must be rejected on every run",
+  "DESIGN.md §3 C16, §3a"),
 }
 
 NOT_YET = "check not built yet in this round (see DESIGN.md §8 for the order of construction)"
